@@ -330,6 +330,8 @@ pub fn run(ctx: &Ctx, rep: &Report) -> Meta {
         out(&format!("INCONCLUSIVE property=C19 self-test failed: {}", e));
         std::process::exit(2);
     }
+    // another (smaller) ciphersuite is used first in this process; its proofs are not judged
+    rep.note(format!("a complete run under a 512-bit parameter set declared through CLCiphersuite preceded the judged proofs (went through: {})", other_suite_first()));
     let sh = c17::shared(ctx, true);
     let nmax = ctx.tier.pick(3usize, 5usize);
     let fixed = c17::fixed_cases(ctx, nmax);
@@ -378,20 +380,30 @@ pub fn run(ctx: &Ctx, rep: &Report) -> Meta {
         rep.class_n("proofs-generated-on-long-lived-threads", per_thread as u64);
         Ok(())
     });
-    if ctx.tier == Tier::Thorough && !rep.aborted() {
-        for (s2, nfix) in [(ClSuite::CL2048, 2usize), (ClSuite::CL3072, 2)] {
+    // larger suites after the CL1024 proofs of this process (quick: two CL2048 proofs): the order "smaller suite
+    // first" is the one in which state sized by the first suite is too small for the next
+    if !rep.aborted() {
+        let later: Vec<(ClSuite, usize, u32)> = if ctx.tier == Tier::Thorough { vec![(ClSuite::CL2048, 2, 12), (ClSuite::CL3072, 2, 12)] } else { vec![(ClSuite::CL2048, 1, 0)] };
+        for (s2, nfix, ncases) in later {
             let keys = key_pool(s2, 0, nfix, ctx.seed);
             if keys.is_empty() {
                 continue;
             }
             let sh2 = c17::Shared { keys, tp: None };
             let ckn = format!("generated-{}", s2.name());
-            run_cases(ctx, rep, &ckn, 12, 5, || c17::strat(3), |c| {
+            let judge = |c: &Case| {
                 with_cl!(s2, CS => match build_view::<CS>(c, &sh2) {
                     Ok(v) => check_view::<CS>(rep, &ckn, c, &v),
                     Err(e) => rep.fail(&ckn, "honest-generation-failed", e, json!({"case": c})),
                 })
-            });
+            };
+            // one signature proof and one issuance proof for certain, then generated ones
+            let fixed2 = [
+                Case { key: 0, n: 2, hidden_mask: 0b01, kind: 2, seed: (ctx.seed as u32) ^ 0x2048, small_mask: 0, hidden_list: vec![], spare: 0 },
+                Case { key: 0, n: 2, hidden_mask: 0b10, kind: 0, seed: (ctx.seed as u32) ^ 0x2049, small_mask: 0, hidden_list: vec![], spare: 1 },
+            ];
+            par_items(ctx, rep, &ckn, &fixed2, |c| judge(c));
+            run_cases(ctx, rep, &ckn, ncases, 5, || c17::strat(3), |c| judge(c));
         }
     }
     Meta {
